@@ -257,6 +257,10 @@ func dischargeAll(obls []*Obligation, dir string, timeout time.Duration, tier st
 				os.WriteFile(file, []byte(o.script), 0o644)
 				a, out, secs := runOne(context.Background(), solvers[1], file, 3*time.Second)
 				r = solveResult{answer: a, solver: solvers[1].name, secs: secs, output: out}
+			} else if o.ExpectSat {
+				// reachability queries are satisfiable queries over quantified assumptions: solvers either answer at
+				// once or never; a short limit keeps the thorough tier from waiting for them
+				r = solve(o.script, dir, o.Name, 10*time.Second, mt, false)
 			} else {
 				r = solve(o.script, dir, o.Name, timeout, mt, tier == "thorough")
 			}
